@@ -53,8 +53,10 @@ def g_case(draw, allow_var=True, max_rows=None):
     else:
         rel = None
         alpha = gen.choice(draw, [0.0, 1.0, 0.5, draw(gen.st.floats(0, 1))])
+    how = gen.presentation(draw)
     return {"prior": prior, "X": X, "upd": [bool(u) for u in upd], "relevance": rel, "alpha": float(alpha),
-            "starve": bool(starve), "count_floor": gen.choice(draw, [EPS, EPS, 1e-6])}
+            "starve": bool(starve), "count_floor": gen.choice(draw, [EPS, EPS, 1e-6]),
+            "how": "plain" if how == "int" else how}
 
 
 def map_machine(case, cap, prior_machine=None, thr=None):
@@ -115,7 +117,7 @@ def c_step(ctx, case):
     ubm, g = map_machine(case, 1)
     before = snapshot(ubm)
     blob = pickle.dumps(before)
-    g.fit(X)
+    g.fit(sut.present(X, case.get("how", "plain")))
     ctx.check(same_snapshot(before, snapshot(ubm)) and pickle.dumps(snapshot(ubm)) == blob,
               "MAP training modified its prior (UBM)", "prior-modified")
     prior_t = (p["weights"], p["means"], p["variances"])
